@@ -485,7 +485,11 @@ def expr_sig(e):
 
 
 # ---- shape-mismatched pairs must be rejected ---------------------------------------------------------------
-MISMATCH_FORMS = ["A@B", "A+B", "A-B", "Product", "Sum", "A@arr", "arr@A", "A+arr", "sum", "A@special", "special@A", "A@special", "special@A"]
+MISMATCH_FORMS = ["A@B", "A+B", "A-B", "Product", "Sum", "A@arr", "arr@A", "A+arr", "sum", "A@special", "special@A", "A@special", "special@A",
+                  "same+", "same+", "same-", "same@"]
+# "same*": two square operators of the same structured kind and different sizes, one of them possibly 1 x 1 (a fused rule for the pair --
+# diagonals added entrywise, scalars multiplied -- works on the stored arrays, where a size-1 operand broadcasts instead of failing)
+SAME_KINDS = ["Diagonal", "Diagonal", "Identity", "ScalarMul", "Dense", "Triangular", "Permutation", "Tridiagonal"]
 
 
 def run_mismatch(ctx, case):
@@ -511,6 +515,35 @@ def run_mismatch(ctx, case):
               "sum": lambda: sum([A, Bop])}[form]
         out = ctx.call(fn)
         kinds = f"{a['k']},{b['k']}"
+    elif form.startswith("same"):
+        sk = S.pick(rng, SAME_KINDS)
+        s1 = int(S.pick(rng, [1, 1, 2, 3, 4]))
+        s2 = s1 + int(S.pick(rng, [1, 2, 3]))
+        if rng.random() < 0.5:
+            s1, s2 = s2, s1
+        dts = [S.pick(rng, ["f4", "f8", "c16"]) for _ in range(2)]
+
+        def leaf(sz, dt, sd):
+            if sk == "Identity":
+                return {"k": "Identity", "n": sz, "dt": dt}
+            if sk == "ScalarMul":
+                return {"k": "ScalarMul", "n": sz, "dt": dt, "c": 2.0 + sd}
+            if sk == "Dense":
+                return {"k": "Dense", "shape": [sz, sz], "dt": dt, "seed": sd}
+            if sk == "Triangular":
+                return {"k": "Triangular", "n": sz, "dt": dt, "seed": sd, "lower": True}
+            if sk == "Permutation":
+                return {"k": "Permutation", "perm": [int(i) for i in np.random.default_rng(sd).permutation(sz)], "dt": dt}
+            if sk == "Tridiagonal":
+                return {"k": "Tridiagonal", "n": max(sz, 2), "dt": dt, "seed": sd}
+            return {"k": "Diagonal", "n": sz, "dt": dt, "seed": sd}
+        a, b = leaf(s1, dts[0], 3), leaf(s2, dts[1], 4)
+        if sk == "Tridiagonal" and max(s1, 2) == max(s2, 2):
+            b = leaf(s2 + 2, dts[1], 4)
+        A, Bop = B.build(a), B.build(b)
+        fn = {"same+": lambda: A + Bop, "same-": lambda: A - Bop, "same@": lambda: A @ Bop}[form]
+        out = ctx.call(fn)
+        kinds = f"{sk}{'(1)' if min(s1, s2) == 1 else ''},{sk}"
     elif form in ("A@special", "special@A"):
         # operands that the simplification rules of `@` absorb without building a Product (Identity is dropped, scalars and
         # diagonals are fused): the shape check must happen before that
